@@ -72,12 +72,15 @@ pub fn rand_shape(rng: &mut SplitMix64, min_rank: usize, max_rank: usize, allow0
 fn shrink(rng: &mut SplitMix64, out: &[usize]) -> Vec<usize> {
     let drop = if rng.chance(1, 2) { rng.upto(out.len()) } else { 0 };
     let mut s: Vec<usize> = out[drop..].to_vec();
-    let mode = rng.below(4);
+    let mode = rng.below(5);
+    let n = s.len();
+    let mid = if n >= 3 { 1 + rng.below(n as u64 - 2) as usize } else { n };
     for (i, d) in s.iter_mut().enumerate() {
         let one = match mode {
             0 => false,
             1 => rng.chance(1, 2),
             2 => i == 0,          // leading
+            3 => i == mid,        // a broadcast dimension sandwiched between kept ones
             _ => rng.chance(1, 4),
         };
         if one {
@@ -327,8 +330,14 @@ fn gen_inner(key: &str, rng: &mut SplitMix64) -> Option<Gen> {
             (none, vec![it(t(rng, dt, &s)), ivec(&reps)], 1)
         }
         "Expand" => {
-            let out = rand_shape(rng, 0, 4, true);
-            let s = if rng.chance(1, 4) { out.clone() } else { shrink(rng, &out) };
+            let mut out = rand_shape(rng, 0, 4, true);
+            let mut s = if rng.chance(1, 4) { out.clone() } else { shrink(rng, &out) };
+            if rng.chance(1, 4) {
+                // same number of elements, higher rank: the result must still get the new shape
+                s = rand_shape(rng, 0, 3, true);
+                out = vec![1; 1 + rng.upto(1)];
+                out.extend(&s);
+            }
             let tgt: Vec<i64> = if rng.chance(1, 3) { shrink(rng, &out).iter().map(|&x| x as i64).collect() } else { out.iter().map(|&x| x as i64).collect() };
             let dt = fi(rng);
             (none, vec![it(t(rng, dt, &s)), ivec(&tgt)], 1)
